@@ -89,6 +89,12 @@ class Codec:
                 self.chk.violation("encoding the same message a second time gave a different result than the first time (something is remembered between calls)",
                                    dict(case=cases[k], impl=a[:3000]))
                 impl[k] = a[:a.index(" ENC2DIFF ")]
+        # an AVP whose V flag (as the library reports it) disagrees with the presence of a vendor id is malformed by construction
+        for k, a in enumerate(impl):
+            if "!V " in a and not model[k].startswith(("PANIC", "OUTOFFUEL")) and "!V " not in model[k]:
+                self.chk.violation("an AVP reports the V flag without a vendor id (or a vendor id without the V flag): the flag octet and the header disagree",
+                                   dict(case=cases[k], impl=a[:3000]))
+                break
         # the message version has no accessor; when the harness could not observe it at all ("M ?") it is not compared
         for k, (a, b) in enumerate(zip(impl, model)):
             if " M ? " in a:
